@@ -72,6 +72,9 @@ pub enum BigProp {
     C03,
     C04,
     C06,
+    C07,
+    C08,
+    C09,
     C13,
 }
 impl BigProp {
@@ -82,6 +85,9 @@ impl BigProp {
             BigProp::C03 => "C03",
             BigProp::C04 => "C04",
             BigProp::C06 => "C06",
+            BigProp::C07 => "C07",
+            BigProp::C08 => "C08",
+            BigProp::C09 => "C09",
             BigProp::C13 => "C13",
         }
     }
@@ -299,10 +305,22 @@ impl<'a> Run<'a> {
         format!("step {} {} on {} (a = {}, b = {}, w = {}, prefill {})", self.step, op, self.case.kind.short(), self.case.a, self.case.b, self.case.w, self.case.prefill)
     }
 
+    /// (lengths of the resident lists, adaptation target / quota) for the victim-list rule
+    fn shape(&self) -> (usize, usize, usize) {
+        match &self.c {
+            BigC::Seg(c) => (c.probationary_len(), c.protected_len(), 0),
+            BigC::TwoQ(c) => (c.recent_len(), c.frequent_len(), c.verif_recent_quota()),
+            BigC::Arc(c) => (c.recent_len(), c.frequent_len(), c.partition()),
+            _ => (0, 0, 0),
+        }
+    }
+
     fn do_put(&mut self, k: u64, tok: u32, check: bool) -> Result<(), Violation> {
         let p = self.prop;
         let (len0, cap) = (each!(&self.c, c => c.len()), each!(&self.c, c => c.cap()));
         let was_known = self.shadow.contains_key(&k);
+        let never_put = k + 1 == self.next && !was_known;
+        let shape0 = self.shape();
         let r = each!(&mut self.c, c => c.put(k, TVal::new(tok)));
         let (text, ev, upd) = pr(r);
         if check {
@@ -337,6 +355,36 @@ impl<'a> Run<'a> {
             }
         }
         let len1 = each!(&self.c, c => c.len());
+        // which list gives up the victim when a never-seen key arrives at a full cache (the part
+        // of the policy that needs no history): C07 / C08 / C09 at scale
+        if check && never_put && len0 == cap && matches!(p, BigProp::C07 | BigProp::C08 | BigProp::C09) {
+            let (r0, f0, t) = shape0;
+            let (r1, f1, _) = self.shape();
+            let bad = match (&self.c, p) {
+                // a new key enters the probationary segment; the protected one is untouched
+                (BigC::Seg(_), BigProp::C07) => f1 != f0,
+                // 2Q: from the recent queue if it is at or over its quota, else from the frequent one
+                (BigC::TwoQ(_), BigProp::C08) => {
+                    if r0 > 0 && (r0 >= t || f0 == 0) {
+                        f1 != f0 || r1 != r0
+                    } else {
+                        f1 + 1 != f0 || r1 != r0 + 1
+                    }
+                }
+                // ARC: from the recent list if it is longer than p, else from the frequent list
+                (BigC::Arc(_), BigProp::C09) => {
+                    if r0 > 0 && (r0 > t || f0 == 0) {
+                        f1 != f0 || r1 != r0
+                    } else {
+                        f1 + 1 != f0 || r1 != r0 + 1
+                    }
+                }
+                _ => false,
+            };
+            if bad {
+                return Err(vio(p, self.step, "victim-list", format!("{what}: a never-seen key arrived at the full cache with (first list, second list, quota / p) = ({r0}, {f0}, {t}); afterwards the lists hold ({r1}, {f1}): the victim came from the wrong list")));
+            }
+        }
         if p == BigProp::C01 && check {
             if len1 > cap {
                 return Err(vio(p, self.step, "len-gt-cap", format!("{what}: len() {len1} > cap() {cap}")));
@@ -701,4 +749,130 @@ pub fn run_big(case: &BigCase, prop: BigProp) -> CaseReport {
     };
     rep.nontrivial = case.prefill >= total && total >= 1024;
     rep
+}
+
+// ------------------------------------------------------------------ C09: the adaptation arithmetic over a grid
+
+/// Drives an ARC cache to chosen ghost-list lengths (|recent ghosts| = x, |frequent ghosts| = y)
+/// by feedback (scan, ghost hits to raise p, scan again, then `remove` of ghost keys to trim),
+/// then performs one ghost hit and checks the statement's formula directly:
+/// a recent-ghost hit raises p by max(1, y / x) capped at the size, a frequent-ghost hit lowers
+/// it by max(1, x / y) floored at 0. Returns Ok(reached) or the violation text.
+fn arc_pair(n: usize, x: usize, y: usize, hit_recent: bool) -> Result<bool, String> {
+    let mut c: AdaptiveCache<u64, u32> = match AdaptiveCache::new(n) {
+        Ok(c) => c,
+        Err(_) => return Ok(false),
+    };
+    let mut next: u64 = 0;
+    let mut fresh = |c: &mut AdaptiveCache<u64, u32>| {
+        c.put(next, 0);
+        next += 1;
+    };
+    for _ in 0..2 * n {
+        fresh(&mut c);
+    }
+    // recent-ghost hits: p climbs to ~0.7 n
+    for _ in 0..(7 * n / 10) {
+        let k = match c.recent_evict_keys().next().copied() {
+            Some(k) => k,
+            None => break,
+        };
+        c.put(k, 1);
+    }
+    // scan until the frequent ghost list is long enough
+    let mut guard = 0;
+    while c.frequent_evict_len() < y && guard < 3 * n {
+        fresh(&mut c);
+        guard += 1;
+    }
+    // trim both ghost lists to the target lengths (remove() of a ghost key forgets it)
+    while c.recent_evict_len() > x {
+        let k = *c.recent_evict_keys_lru().next().unwrap();
+        c.remove(&k);
+    }
+    while c.frequent_evict_len() > y {
+        let k = *c.frequent_evict_keys_lru().next().unwrap();
+        c.remove(&k);
+    }
+    if c.recent_evict_len() != x || c.frequent_evict_len() != y || x == 0 || y == 0 {
+        return Ok(false);
+    }
+    let p0 = c.partition();
+    if hit_recent {
+        let k = *c.recent_evict_keys().next().unwrap();
+        c.put(k, 2);
+        let want = (p0 + (y / x).max(1)).min(n);
+        if c.partition() != want {
+            return Err(format!("ARC size {n}: with {x} recent ghosts, {y} frequent ghosts and p = {p0}, a put that hits the recent ghost list must raise p by max(1, {y} / {x}) = {} (capped at {n}) to {want}; p is now {}", (y / x).max(1), c.partition()));
+        }
+    } else {
+        let k = *c.frequent_evict_keys().next().unwrap();
+        c.put(k, 2);
+        let want = p0.saturating_sub((x / y).max(1));
+        if c.partition() != want {
+            return Err(format!("ARC size {n}: with {x} recent ghosts, {y} frequent ghosts and p = {p0}, a put that hits the frequent ghost list must lower p by max(1, {x} / {y}) = {} (floored at 0) to {want}; p is now {}", (x / y).max(1), c.partition()));
+        }
+    }
+    Ok(true)
+}
+
+/// the grid: every (x, y) with 1 <= x, y <= `max` in the thorough tier; in the quick tier all
+/// exact multiples (where an inexact division first goes wrong) with their neighbours, plus a
+/// diagonal sample. Returns (pairs reached, pairs attempted, first violation).
+pub fn arc_adaptation_grid(thorough: bool, workers: usize) -> (u64, u64, Option<String>) {
+    let max = if thorough { 240usize } else { 130 };
+    let n = 2 * max + max / 2 + 8;
+    let mut pairs: Vec<(usize, usize)> = vec![];
+    for x in 1..=max {
+        for y in 1..=max {
+            let mult = (y % x == 0 && y / x >= 2) || (x % y == 0 && x / y >= 2);
+            let near = (y + 1) % x == 0 || (y % x == 1 && y > x) || (x + 1) % y == 0 || (x % y == 1 && x > y);
+            if thorough || mult || (near && (x + y) % 3 == 0) || (x * 31 + y * 17) % 97 == 0 {
+                pairs.push((x, y));
+            }
+        }
+    }
+    let chunks: Vec<Vec<(usize, usize)>> = (0..workers.max(1)).map(|w| pairs.iter().copied().enumerate().filter(|(i, _)| i % workers.max(1) == w).map(|(_, p)| p).collect()).collect();
+    let results: Vec<(u64, u64, Option<String>)> = std::thread::scope(|sc| {
+        let hs: Vec<_> = chunks
+            .iter()
+            .map(|chunk| {
+                sc.spawn(move || {
+                    crate::inst::thread_init();
+                    let (mut reached, mut tried, mut bad) = (0u64, 0u64, None);
+                    for &(x, y) in chunk {
+                        for dir in [true, false] {
+                            tried += 1;
+                            match catch_unwind(AssertUnwindSafe(|| arc_pair(n, x, y, dir))) {
+                                Ok(Ok(true)) => reached += 1,
+                                Ok(Ok(false)) => {}
+                                Ok(Err(e)) => {
+                                    if bad.is_none() {
+                                        bad = Some(e);
+                                    }
+                                }
+                                Err(_) => {
+                                    let _ = take_last_panic();
+                                }
+                            }
+                        }
+                        if bad.is_some() {
+                            break;
+                        }
+                    }
+                    (reached, tried, bad)
+                })
+            })
+            .collect();
+        hs.into_iter().map(|h| h.join().expect("grid worker died")).collect()
+    });
+    let mut out = (0u64, 0u64, None);
+    for (r, t, b) in results {
+        out.0 += r;
+        out.1 += t;
+        if out.2.is_none() {
+            out.2 = b;
+        }
+    }
+    out
 }
